@@ -169,6 +169,116 @@ def execute(ctx, binary, scheds, tag):
     return tp
 
 
+def judge(ctx, binary, scheds, pre, tag):
+    """Executes the schedules on the real node, validates the traces, confirms every kind of monitor report (at most two
+    per kind) by a second execution from scratch.  Returns (confirmed violations, trace report)."""
+    tp = execute(ctx, binary, scheds, tag)
+    rep = vlib.validate(ctx, "Trace_SerfEvents", trace_cfg(), tp, timeout=3000)
+    viol, seen, cand = [], {}, []
+    for (tid, line, clauses, tags) in rep.monitors:
+        mine = sorted(c for c in clauses if c.startswith(pre))
+        if not mine:
+            continue
+        key = ",".join(mine) + "|" + ",".join(sorted(tags))
+        if seen.get(key, 0) >= 2:
+            continue
+        seen[key] = seen.get(key, 0) + 1
+        cand.append((tid, mine))
+    if cand:
+        t2 = execute(ctx, binary, [scheds[tid] for (tid, _) in cand], tag + "-confirm")
+        rep2 = vlib.validate(ctx, "Trace_SerfEvents", trace_cfg(), t2)
+        for n, (tid, mine) in enumerate(cand):
+            again = [m for m in rep2.monitors if m[0] == n and set(m[2]) & set(mine)]
+            if again:
+                viol.append({"clauses": mine, "tags": sorted(again[0][3]), "schedule": scheds[tid][2], "b": scheds[tid][0],
+                             "snap": scheds[tid][1]})
+            else:
+                ctx.log("report %s on trace %d (%s) not reproduced; ignored" % (mine, tid, tag))
+    return viol, rep
+
+
+def directed(mc_ce):
+    """Directed schedules: TLC's counterexample for the recorded finding, and histories that random simulation rarely
+    continues far enough: restart from a snapshot that recorded T, ignore-old join to a peer whose event clock is <= T,
+    then events / queries at times <= T (gossip and state sync)."""
+    ev = lambda lt, k: {"a": "ev", "lt": lt, "k": k}
+    qry = lambda lt, i: {"a": "qry", "lt": lt, "id": i, "nb": 0, "flt": 0}
+    mg = lambda elt, evs, j, g, qlt=0: {"a": "merge", "elt": elt, "qlt": qlt, "evs": evs, "join": j, "ign": g}
+    rs = lambda c: {"a": "restart", "crash": c}
+    hand = [
+        [ev(3, 1), rs(0), mg(2, [], 1, 1), ev(2, 2), ev(3, 1), mg(3, [{"lt": 3, "ks": [1, 2]}], 0, 0)],
+        [ev(4, 1), qry(4, 1), rs(0), mg(4, [{"lt": 4, "ks": [1]}], 1, 1, 4), ev(4, 1), qry(4, 1), ev(3, 2), qry(3, 2)],
+        [ev(20, 1), rs(0), mg(19, [{"lt": 19, "ks": [2]}], 1, 1), ev(20, 1), ev(19, 2), rs(1), mg(1, [], 1, 1), ev(20, 1)],
+        [{"a": "uev", "k": 1}, {"a": "lq"}, rs(0), mg(1, [], 1, 1, 1), ev(1, 1), qry(1, 1), mg(0, [{"lt": 1, "ks": [1]}], 1, 1)],
+    ]
+    return [(b, 1, s) for s in ([x for x in mc_ce if x] + hand) for b in BS]
+
+
+def alphabet(snap, nlocal, reduced=False):
+    """Single next inputs for the amplification (times of the whole domain, so the recorded ones too)."""
+    ts = [1, 3, 20, 23] if reduced else LOW + HIGH
+    out = []
+    for lt in ts:
+        for k in ([1] if reduced else [1, 2]):
+            out.append({"a": "ev", "lt": lt, "k": k})
+            out.append({"a": "qry", "lt": lt, "id": k, "nb": 0, "flt": 0})
+    flags = [(1, 1)] if reduced else [(0, 0), (1, 0), (1, 1)]
+    for (j, g) in flags:
+        for elt in ts:
+            out.append({"a": "merge", "elt": elt, "qlt": elt, "evs": [], "join": j, "ign": g})
+        for lt in ([] if reduced else ts):
+            out.append({"a": "merge", "elt": 1, "qlt": 0, "evs": [{"lt": lt, "ks": [1]}], "join": j, "ign": g})
+    if snap == 1:
+        out += [{"a": "restart", "crash": 0}] + ([] if reduced else [{"a": "restart", "crash": 1}])
+    if nlocal < LOCALMAX:
+        out += [{"a": "uev", "k": 1}, {"a": "lq"}]
+    return out
+
+
+def amplify(ctx, scheds, rep, two_step_for=3, limit=6):
+    """Divergence-directed amplification: the model no longer predicts the code after a diverging line, so the
+    neighbourhood of the diverging prefixes is searched directly: prefix (up to and including the diverging input d) followed
+    by every single next input y; for the first few prefixes also by every pair <<x, y>> over a reduced alphabet and by
+    <<x, d, y>> (the diverging input applied once more in a changed context, e.g. after a restart).  Prefixes that have not
+    processed a message at MAX come first (after one, every report carries the tag of the recorded finding)."""
+    start, pos = {}, 1
+    for i, (b, sn, s) in enumerate(scheds):
+        start[i] = pos
+        pos += 1 + len(s)
+    first = {}
+    for (tid, l) in rep.diverged:
+        k = l - start[tid]
+        if tid not in first or k < first[tid]:
+            first[tid] = k
+    prefixes, seen = [], set()
+    def has_max(tid, k):
+        return MAX in re.findall(r'"lt": (\d+)', json.dumps(scheds[tid][2][:k])) or str(MAX) in re.findall(
+            r'"lt": (\d+)', json.dumps(scheds[tid][2][:k]))
+    for tid, k in sorted(first.items(), key=lambda x: (has_max(x[0], x[1]), x[1])):
+        b, sn, s = scheds[tid]
+        key = json.dumps([b, sn, s[:k]])
+        if key not in seen:
+            seen.add(key)
+            prefixes.append((b, sn, s[:k]))
+        if len(prefixes) >= limit:
+            break
+    out = []
+    for n, (b, sn, pre) in enumerate(prefixes):
+        nloc = len([x for x in pre if x["a"] in ("uev", "lq")])
+        for x in alphabet(sn, nloc):
+            out.append((b, sn, pre + [x]))
+        if n < two_step_for:
+            for x in alphabet(sn, nloc, reduced=True):
+                nl2 = nloc + (1 if x["a"] in ("uev", "lq") else 0)
+                for y in alphabet(sn, nl2, reduced=True):
+                    out.append((b, sn, pre + [x, y]))
+                d = pre[-1]
+                if d["a"] not in ("uev", "lq", "restart"):
+                    for y in alphabet(sn, nl2):
+                        out.append((b, sn, pre + [x, d, y]))
+    return prefixes, out
+
+
 def run_seq(ctx, prop, replay=None):
     """Shared by C05, C14 and the C04 half: returns (violations, coverage)."""
     binary = build_seq(ctx)
@@ -181,54 +291,42 @@ def run_seq(ctx, prop, replay=None):
         mc = model_check(ctx, prop)
         num, depth = (1600, 40) if ctx.thorough() else (240, 30)
         rng = random.Random(ctx.seed)
-        scheds = [(b, 1, s) for s in mc[2] if s for b in BS]
+        scheds = directed(mc[2])
         for s in simulate(ctx, num, depth):
             sn = 1 if any(st["a"] == "restart" for st in s) else rng.choice([0, 1])
             scheds.append((rng.choice(BS), sn, s))
-    tp = execute(ctx, binary, scheds, "a")
-    rep = vlib.validate(ctx, "Trace_SerfEvents", trace_cfg(), tp, timeout=3000)
+    viol, rep = judge(ctx, binary, scheds, pre, "a")
     if rep.diverged:
         ctx.log("diverged at %s" % rep.diverged[:5])
-    viol, seen = [], {}
     nsteps = 0
     kinds = {}
     for (b, sn, s) in scheds:
         nsteps += len(s)
         for st in s:
             kinds[st["a"]] = kinds.get(st["a"], 0) + 1
-    cand = []
-    for (tid, line, clauses, tags) in rep.monitors:
-        mine = sorted(c for c in clauses if c.startswith(pre))
-        if not mine:
-            continue
-        key = ",".join(mine) + "|" + ",".join(sorted(tags))
-        if seen.get(key, 0) >= 2:
-            continue
-        seen[key] = seen.get(key, 0) + 1
-        cand.append((tid, mine))
-    if cand:
-        # confirmation: the same schedules executed a second time from scratch (one driver run, one validation)
-        t2 = execute(ctx, binary, [scheds[tid] for (tid, _) in cand], "confirm")
-        rep2 = vlib.validate(ctx, "Trace_SerfEvents", trace_cfg(), t2)
-        for n, (tid, mine) in enumerate(cand):
-            again = [m for m in rep2.monitors if m[0] == n and set(m[2]) & set(mine)]
-            if again:
-                viol.append({"clauses": mine, "tags": sorted(again[0][3]), "schedule": scheds[tid][2], "b": scheds[tid][0],
-                             "snap": scheds[tid][1]})
-            else:
-                ctx.log("report %s on trace %d not reproduced; ignored" % (mine, tid))
+    amp = {"prefixes": 0, "schedules": 0, "lines": 0, "divergences": 0}
+    if rep.diverged and not replay and not vlib.classify(prop, viol)[0]:
+        # the model does not predict the code after these lines: search their neighbourhood directly (DESIGN 2.5)
+        prefixes, ext = amplify(ctx, scheds, rep)
+        ctx.log("amplifying %d diverging prefix(es): %d extended schedules" % (len(prefixes), len(ext)))
+        v2, rep2 = judge(ctx, binary, ext, pre, "amp")
+        viol += v2
+        amp = {"prefixes": len(prefixes), "schedules": len(ext), "lines": rep2.lines, "divergences": len(rep2.diverged)}
     cov = {
         "states": mc[0] if mc else 1, "transitions": mc[1] if mc else 1, "exhaustive": bool(mc),
         "model_constants": "MAX=%d (stands for 2^64-1), buffer sizes 1..4 (chosen at Init); exhaustive configs: %s; simulation: times "
                            "%s+%s, %d contents, query ids 1..3, push/pull <=2 slots x <=2 events" % (
                                MAX, "; ".join(mc[3]) if mc else "-", LOW, HIGH, NC),
         "traces_validated_against_impl": rep.traces, "trace_lines": rep.lines, "divergences": len(rep.diverged),
+        "divergence_amplification": amp,
         "evaluations": nsteps, "distinct_nontrivial": len(set(json.dumps(x) for x in scheds)), "inputs_by_kind": kinds,
         "rule": "TLC -simulate behaviours of SerfEvents (gossip events/queries incl. duplicates and window-edge times, push/pull "
                 "merges with all isJoin/join-ignore combinations, local UserEvent/Query, graceful and crash restarts from the "
-                "snapshot) plus the shortest TLC counterexample for the recorded finding under every buffer size, applied to a "
-                "real quiet Serf node (buffer size drawn per schedule); every step validated by TLC; distinct = distinct "
-                "(buffer size, input sequence) pairs",
+                "snapshot) plus directed schedules (the shortest TLC counterexample for the recorded finding; restart / "
+                "ignore-old join / old message histories) under every buffer size, applied to a real quiet Serf node (buffer "
+                "size drawn per schedule); every step validated by TLC; a diverging line triggers the execution of all 1-input "
+                "(and reduced 2-input) extensions of the diverging prefix with the monitors on; distinct = distinct (buffer "
+                "size, input sequence) pairs",
         "samples": [scheds[0][2][:6]] if scheds else [],
     }
     return viol, cov
